@@ -317,6 +317,51 @@ func (s *c02Session) bytesOf(segs []seg) []byte {
 	return out
 }
 
+// coincidence reports whether, along the reader's error-free path, some unit-sized window of the
+// wire equals the expected honest unit byte for byte although not all of its bytes originate from
+// that unit at the same offsets.
+func (s *c02Session) coincidence(segs []seg) bool {
+	type origin struct {
+		own      bool
+		use, off int
+		junk     bool
+	}
+	var data []byte
+	var org []origin
+	for _, g := range segs {
+		if g.junk != nil {
+			for _, b := range g.junk {
+				data = append(data, b)
+				org = append(org, origin{junk: true})
+			}
+			continue
+		}
+		d := 0
+		if !g.own {
+			d = 1
+		}
+		for o := g.from; o < g.to; o++ {
+			data = append(data, s.units[d][g.use][o])
+			org = append(org, origin{own: g.own, use: g.use, off: o})
+		}
+	}
+	pos := 0
+	for u := 0; u < len(s.units[0]); u++ {
+		unit := s.units[0][u]
+		if pos+len(unit) > len(data) || !bytes.Equal(data[pos:pos+len(unit)], unit) {
+			return false // the reader fails here (and latches): values past this point are never accepted
+		}
+		for k := range unit {
+			o := org[pos+k]
+			if o.junk || !o.own || o.use != u || o.off != k {
+				return true
+			}
+		}
+		pos += len(unit)
+	}
+	return false
+}
+
 func c02Case(r *Recorder, kk bool, lens []int, mk func(s *c02Session, honest []seg) []seg, class string, seed int) {
 	s, err := newC02Session(kk, lens, seed)
 	if err != nil {
@@ -328,6 +373,14 @@ func c02Case(r *Recorder, kk bool, lens []int, mk func(s *c02Session, honest []s
 		honest = append(honest, seg{own: true, use: u, from: 0, to: len(s.units[0][u])})
 	}
 	segs := mk(s, honest)
+	// the adversary's bytes may happen to equal, value for value, the honest unit the reader expects at
+	// that position (a one-byte splice has a 1/256 chance): the symbolic model distinguishes bytes by
+	// origin, not value, so model and implementation legitimately differ on such a wire. The oracle is
+	// still evaluated on it; only the line for the model is left out.
+	coinc := s.coincidence(segs)
+	if coinc {
+		r.Notes["value_coincidences_not_sent_to_model"] = fmt.Sprint(r.Notes["value_coincidences_not_sent_to_model"], " ", seed)
+	}
 	wire := bytes.NewReader(s.bytesOf(segs))
 	var results []string
 	var returned [][]byte
@@ -381,7 +434,9 @@ func c02Case(r *Recorder, kk bool, lens []int, mk func(s *c02Session, honest []s
 	if lensStr == "" {
 		lensStr = "none"
 	}
-	r.Emit(fmt.Sprintf("rec.read 0 %s %s", lensStr, segStr), out)
+	if !coinc {
+		r.Emit(fmt.Sprintf("rec.read 0 %s %s", lensStr, segStr), out)
+	}
 	edited := len(segs) != len(honest)
 	for i := range segs {
 		if !edited && segs[i].String() != honest[i].String() {
